@@ -293,6 +293,14 @@ func (ex *Exec) callContract(st *State, c *ssa.Call, callee *ssa.Function, args 
 		st.vals[c] = rv
 	}
 	ctxPost := &specCtx{mode: "callpost", callee: cenv, oldState: pre, results: results}
+	for i, r := range results {
+		nm := shortName(name) + "_result"
+		if i > 0 {
+			nm = fmt.Sprintf("%s_result%d", shortName(name), i)
+		}
+		st.ghosts[nm] = r
+		st.ghosts[fmt.Sprintf("%s_%d", nm, k)] = r
+	}
 	for _, g := range fc.Ghosts {
 		gname, gsort := ghostNameSort(g.Name)
 		if gsort == "" {
@@ -301,6 +309,7 @@ func (ex *Exec) callContract(st *State, c *ssa.Call, callee *ssa.Function, args 
 		gv := Scalar(ex.fresh("ghost_"+smtName(name)+"_"+gname, sortByName(gsort)))
 		ctxPost.ghosts = appendGhost(ctxPost.ghosts, gname, gv)
 		st.ghosts[shortName(name)+"_"+gname] = gv
+		st.ghosts[fmt.Sprintf("%s_%s_%d", shortName(name), gname, k)] = gv
 	}
 	for _, e := range fc.Ensures {
 		st.assume(ex.specBool(st, e.Expr, ctxPost))
@@ -327,9 +336,7 @@ func (ex *Exec) applySplitsOrNil(st *State, anchor string, c ssa.Instruction) []
 	}
 	for _, ad := range ex.fc.Asserts {
 		if ad.Anchor == anchor {
-			g := ex.specBool(st, ad.Clause.Expr, &specCtx{mode: "loop"})
-			ex.oblige(st, "assert", ad.Clause.Label+"@"+strings.ReplaceAll(anchor, " ", ""), g, ad.Clause.Tags, c, ad.Clause.Src)
-			st.assume(g)
+			has = true
 		}
 	}
 	if !has {
